@@ -371,12 +371,15 @@ Section Poly.
 
   (* the certificate: `chains` (one list of pieces per original segment) is a hint that is checked.
      winding part: all that the crossing-number walk needs; full: plus what the pruning needs. *)
+  Definition nondeg_b (l : Seg) : bool :=
+    let v := v2sub (snd l) (fst l) in o0 O <? v2dot v v.
+
   Definition winding_clipped_check (tol : T) (t : qt Seg) (segs : list Seg) (chains : list (list Seg)) : bool :=
     forall2b (chain_check tol) segs chains &&
     perm_check (pieces t) (concat chains) &&
     ray_check t && owner_check t.
   Definition well_clipped_check (tol : T) (t : qt Seg) (segs : list Seg) (chains : list (list Seg)) : bool :=
-    winding_clipped_check tol t segs chains && box_check tol t.
+    winding_clipped_check tol t segs chains && box_check tol t && forallb nondeg_b segs.
 End Poly.
 
 Arguments QNil {O A}.
